@@ -57,13 +57,18 @@ def products(r):
 
 def run(res, tier, seed):
     rng = common.rng_for(seed, PROP)
-    plans = [("gac_klm", "noaa16", 120), ("gac_pod", "noaa10", 120), ("lac_klm", "noaa18", 40), ("lac_pod", "noaa9", 40)]
+    # (format, spacecraft, lines, line-number pattern): clean | wrapped (POD files stored rotated, the reader rolls
+    # them back) | dropped (one record with an out-of-range number is removed by the sanitising)
+    plans = [("gac_klm", "noaa16", 120, "clean"), ("gac_pod", "noaa10", 120, "clean"), ("lac_klm", "noaa18", 40, "clean"),
+             ("lac_pod", "noaa9", 40, "clean"), ("gac_pod", "noaa12", 60, "wrapped"), ("gac_klm", "noaa17", 60, "dropped"),
+             ("gac_pod", "noaa7", 60, "dropped")]
     if tier == "thorough":
-        plans = [(f, s, n * 6) for f, s, n in plans] + [("gac_klm", "metopa", 600), ("gac_pod", "noaa14", 600)]
+        plans = [(f, s, n * 6, k) for f, s, n, k in plans] + [("gac_klm", "metopa", 600, "clean"), ("gac_pod", "noaa14", 600, "clean"),
+                                                             ("lac_pod", "noaa11", 90, "wrapped"), ("lac_klm", "metopc", 90, "dropped")]
     cases, meta = [], []
     with common.scratch_dir() as d:
         tle_dir, tle_name = impl.make_tle_dir(d)
-        for fmt, sc, n in plans:
+        for fmt, sc, n, pattern in plans:
             fam = l1b.FMT[fmt]["family"]
             start = datetime.datetime(2001 if fam == "klm" else 1990, 3, 4, 10, 0, 0)
             first = rng.choice([1, 1, 7, 300])
@@ -71,23 +76,42 @@ def run(res, tier, seed):
             w = l1b.FMT[fmt]["width"]
             samples = [int(200 + 300 * ((j * 7) % 11) / 11.0) for j in range(5 * w)]
             wb = l1b.words_bytes(l1b.pack_words(samples))
-            lines = l1b.default_lines(fmt, n, start, first=first, counts=wb, qual=qs,
-                                      switch=[rng.choice([0, 1]) for _ in range(n)])
+            numbers = list(range(first, first + n))
+            if pattern == "wrapped":
+                k = rng.randrange(3, n - 3)
+                numbers = list(range(n - k + 1, n + 1)) + list(range(1, n - k + 1))
+            elif pattern == "dropped":
+                numbers[rng.randrange(5, n - 5)] = 20000 if l1b.FMT[fmt]["res"] == "gac" else 65535
+            sws = [rng.choice([0, 1]) for _ in range(n)]
+            lines = l1b.default_lines(fmt, n, start, counts=wb, qual=qs, switch=sws, numbers=numbers)
             data = l1b.build_file(fmt, sc, start, lines)
             # twin file: all non-mask bits of every quality word cleared
             keep = sum(1 << b for b in MASKBITS[fam])
-            lines2 = l1b.default_lines(fmt, n, start, first=first, counts=wb, qual=[q & keep for q in qs],
-                                       switch=[l.get("switch", 0) for l in lines])
+            lines2 = l1b.default_lines(fmt, n, start, counts=wb, qual=[q & keep for q in qs], switch=sws, numbers=numbers)
             data2 = l1b.build_file(fmt, sc, start, lines2)
             kw = dict(tle_dir=tle_dir, tle_name=tle_name, adjust_clock_drift=False)
-            r = impl.open_reader(fmt, data, **kw)
-            r2 = impl.open_reader(fmt, data2, **kw)
-            if len(r.scans) != n:
-                res.violations.append(("reader dropped lines of a clean pass", dict(fmt=fmt, n=n, got=len(r.scans))))
+            try:
+                r = impl.open_reader(fmt, data, **kw)
+                r2 = impl.open_reader(fmt, data2, **kw)
+                surv = [int(x) for x in r.scans["scan_line_number"]]
+                exp_surv = [x for x in numbers if x < (15000 if l1b.FMT[fmt]["res"] == "gac" else 65535)]
+                if pattern == "wrapped":
+                    exp_surv = sorted(exp_surv)
+                if surv != exp_surv:
+                    res.violations.append(("unexpected surviving records", dict(fmt=fmt, pattern=pattern, got=surv[:10], expected=exp_surv[:10])))
+                    continue
+                byno = {l["n"]: l for l in lines}
+                lines = [byno[x] for x in surv]
+                qs = [l["qual"] for l in lines]
+                mask = np.asarray(r.mask)
+                qf = r.get_qual_flags()
+                P, P2 = products(r), products(r2)
+            except Exception as e:  # noqa
+                import traceback
+                res.violations.append(("exception while computing the products of a pass (%s line numbers): %r" % (pattern, e),
+                                       dict(fmt=fmt, spacecraft=sc, pattern=pattern, numbers=numbers[:12], seed=seed,
+                                            traceback=traceback.format_exc()[-800:])))
                 continue
-            mask = np.asarray(r.mask)
-            qf = r.get_qual_flags()
-            P, P2 = products(r), products(r2)
             tbl = fam + "_flags"
             for i, q in enumerate(qs):
                 row = [int(x) for x in qf[i]]
@@ -95,7 +119,7 @@ def run(res, tier, seed):
                 meta.append((tbl, fmt, lines[i]["n"], q))
                 exp = any((q >> b) & 1 for b in MASKBITS[fam])
                 nontriv = exp or any((q >> b) & 1 for b in SUMBITS[fam]) or bin(q).count("1") >= 2
-                res.add_case((fam, q), nontriv, dict(format=fmt, line=lines[i]["n"], quality_word=hex(q)))
+                res.add_case((fam, q, pattern), nontriv, dict(format=fmt, line=lines[i]["n"], quality_word=hex(q), numbering=pattern))
                 # ---- oracle on the implementation, independent of the model ----
                 for nm, arr in P.items():
                     rowv = arr[i]
